@@ -302,8 +302,24 @@ pub fn run(ctx: &mut Ctx) {
                             desc["values"] = json!(vals);
                         }
                         3 => {
-                            let v: [f64; 0] = [];
-                            result = catch(std::panic::AssertUnwindSafe(|| if target == 'q' { map_err!(solver.update_q(&v)) } else { map_err!(solver.update_b(&v)) })).unwrap_or_else(|e| Err(format!("PANIC {e}")));
+                            // the empty update in each of its spellings: array, Vec, empty (index,value) pair
+                            match rng.usize(0, 2) {
+                                0 => {
+                                    let v: [f64; 0] = [];
+                                    result = catch(std::panic::AssertUnwindSafe(|| if target == 'q' { map_err!(solver.update_q(&v)) } else { map_err!(solver.update_b(&v)) })).unwrap_or_else(|e| Err(format!("PANIC {e}")));
+                                    desc["empty_as"] = json!("array");
+                                }
+                                1 => {
+                                    let v: Vec<f64> = vec![];
+                                    result = catch(std::panic::AssertUnwindSafe(|| if target == 'q' { map_err!(solver.update_q(&v)) } else { map_err!(solver.update_b(&v)) })).unwrap_or_else(|e| Err(format!("PANIC {e}")));
+                                    desc["empty_as"] = json!("Vec");
+                                }
+                                _ => {
+                                    let tup: (Vec<usize>, Vec<f64>) = (vec![], vec![]);
+                                    result = catch(std::panic::AssertUnwindSafe(|| if target == 'q' { map_err!(solver.update_q(&tup)) } else { map_err!(solver.update_b(&tup)) })).unwrap_or_else(|e| Err(format!("PANIC {e}")));
+                                    desc["empty_as"] = json!("index-value pair");
+                                }
+                            }
                         }
                         4 => {
                             let v = vec![1.0; len + 1];
